@@ -816,7 +816,25 @@ def check_pulls(ctx: Context, rep, rule: str) -> None:
         # and `threads` is the function's own parameter (not shadowed)
         params = [norm(text(p)).split(":")[0].strip().removeprefix("mut ")
                   for p in fn.raw.get("inputs", [])] if hasattr(fn, "raw") else []
-        task_arg = c["args"][1] if len(c["args"]) > 1 else None
+        # immutable `let` bindings name their initialisers
+        inits = {}
+        for n in walk(fn.body):
+            pat_ = n.get("pat") if n.get("k") == "Local" else None
+            if isinstance(pat_, dict) and pat_.get("k") == "PType":
+                pat_ = pat_.get("pat")       # `let x: T = ..`
+            if isinstance(pat_, dict) and pat_.get("k") == "PIdent" and \
+                    not pat_.get("mutable") and isinstance(n.get("init"), dict):
+                inits.setdefault(pat_["name"], []).append(n["init"])
+
+        def through_lets(a):
+            seen = 0
+            while kind(a, "Path") and len(inits.get(norm(text(a)), [])) == 1 \
+                    and seen < 5:
+                a = inits[norm(text(a))][0]
+                seen += 1
+            return a
+
+        task_arg = through_lets(c["args"][1]) if len(c["args"]) > 1 else None
         ok_tasks = kind(task_arg, "MethodCall") and task_arg["method"] in (
             "into_iter", "iter", "drain") and kind(task_arg["recv"], "Path") \
             and norm(text(task_arg["recv"])) == "files"
@@ -824,7 +842,7 @@ def check_pulls(ctx: Context, rep, rule: str) -> None:
                construct=f"tasks = {norm(text(task_arg)) if task_arg else None}",
                message="one task per shard file (a task that is a run of "
                "shards makes every worker read its whole run ahead)")
-        f_arg = c["args"][0] if c["args"] else None
+        f_arg = through_lets(c["args"][0]) if c["args"] else None
         ok_f = False
         if kind(f_arg, "Path"):
             ok_f = norm(text(f_arg)).endswith("get_shard_progress")
